@@ -688,3 +688,62 @@ def parser_property(prop, tier, seed):
 
     rep.rerun_witness = rerun
     return rep
+
+
+# =========================================================================== C16
+def conv_property(prop, tier, seed):
+    from . import convprops
+
+    root = REPO
+    repo = Repo(root)
+    rep = Report(prop, tier, seed, "proof", "./check %s --tier %s" % (prop, tier))
+    rep.trusted = ["shape of the parser's nodes (CommandNode / ArgumentNode / ExpressionNode fields): the postconditions of the grammar actions proved under C10",
+                   "namedtuple construction, list.append and dict.get on a constant table (assumed builtin contracts)",
+                   "the v2 *syntax* step (`NAME(args)` without result name -> CommandNode(None, NAME, args)) shares C10's assumed PLY engines"]
+    trecs, table = convprops.table_records(repo)
+    recs = list(trecs)
+    rep.functions.append({"file": "mpilot/utils.py", "qualname": "EEMS_COMMANDS (literal table)", "entries": len(table)})
+    try:
+        crecs, fns = convprops.verify_converter(repo, table)
+        recs += [{k: v for k, v in r.items() if k not in ("model_obj", "state")} for r in crecs]
+        rep.functions += fns
+    except Exception as e:
+        import traceback
+
+        rep.errors.append("converter: %s: %s %s" % (type(e).__name__, e, traceback.format_exc()[-800:]))
+    for r in recs:
+        rep.add_vc(r["name"], r["status"], r.get("function"), r.get("clause") or r.get("kind"), r.get("backend"), r.get("time_s", 0),
+                   detail={"goal": r.get("goal"), "reason": r.get("reason"), "trail": r.get("trail")})
+        if r["status"] == "sat":
+            v = {"obligation": r["name"], "function": r.get("function"), "how": "exhaustive table check" if r.get("clause") == "table" else "counter-model",
+                 "detail": {"goal": r.get("goal")}, "confirmed": r.get("clause") == "table", "witness": {"v2": r.get("v2"), "v3": r.get("v3")}}
+            if r.get("clause") == "table" and r.get("v2") in ("SCORERANGEBENEFIT", "SCORERANGECOST"):
+                v["known_id"] = "C16-scorerange-commands-missing"
+            rep.violations.append(v)
+        elif r["status"] != "unsat":
+            rep.undecided.append({"obligation": r["name"], "reason": r.get("reason") or "unknown"})
+    rep.samples = [{"obligation": r["name"], "verdict": r["status"], "goal": r.get("goal")} for r in recs[:4]]
+    t0 = time.time()
+    cases = convprops.v2_cases(repo, table)
+    outs = convprops.run_v2(cases, root)
+    fails = 0
+    for c, o in zip(cases, outs):
+        if o["v2"] != o["v3"] or o["v2"]["outcome"] != "ok":
+            fails += 1
+            rep.violations.append({"obligation": "mpilot/program.py::Program.from_source/bounded:v2-equals-v3", "function": "mpilot/utils.py::convert_eems2_commands",
+                                   "how": "bounded-concrete", "case": c, "real": o, "violated": ["convert"], "confirmed": True})
+    rep.bounded = {"label": "bounded (never counted as proved)", "evaluations": len(cases), "distinct_nontrivial": len(set(c["v2"] for c in cases)), "failures": fails,
+                   "wall_s": round(time.time() - t0, 1),
+                   "rule": "every mapped EEMS 2.0 name whose target exists in the CSV libraries x {NewFieldName, NewFieldName+OutFileName, InFieldName only, "
+                           "MPilot-style result name}: Program.from_source(v2 text) and Program.from_source(v3 transcription) are compared (result names, "
+                           "command classes, argument names and values)"}
+
+    def rerun(w):
+        if not w or w.get("kind") != "table-entry":
+            return None
+        names, _ = convprops.library_command_names(Repo(root))
+        t = convprops.literal_dict(Repo(root), convprops.UTILS, "EEMS_COMMANDS") or {}
+        return ["table"] if (w["v2"] in t and t[w["v2"]] not in names) else []
+
+    rep.rerun_witness = rerun
+    return rep
